@@ -368,6 +368,9 @@ def tlv_lists(tier, rng, k, n):
             yield ("tlv-trunc", hx(b[:c]), {})
     for i in range(count * 20):
         yield ("tlv-random", hx(random_tlvs(rng, 900, wellformed=rng.chance(1, 2))), {})
+    for j, (sec, ln) in enumerate(literal_headed_sections()):
+        if j % n == k:
+            yield ("tlv-literal", sec, {})
     # a single value of 65 535 / 65 534 bytes, exact fit and one byte short
     if k == 0:
         for ln in (65535, 65534, 65533):
@@ -375,6 +378,31 @@ def tlv_lists(tier, rng, k, n):
                 yield ("tlv-big", expr(bytes([7]) + be16(ln), fill(present, 0xAB)), {})
             yield ("tlv-big", expr(bytes([7]) + be16(ln), fill(ln, 0xAB), bytes([9, 0, 0])), {})
             yield ("tlv-big", expr(bytes([7]) + be16(ln), fill(ln, 0xAB), bytes([9, 0])), {})
+
+
+def literal_headed_sections():
+    """TLV sections in which a TLV boundary is followed by a protocol literal -- the v2 signature, the v1 keywords, every
+    byte-string literal of the crate's source -- read as (type, big-endian length) with a value that fits exactly, is
+    followed by another TLV, or is one byte short.  A walk must treat such bytes as the TLV they spell (the signature is
+    type 0x0D, length 0x0A0D), never as a header to re-synchronise on; random values never put a literal at a boundary
+    with thousands of bytes behind it.  Yields (expression, total length)."""
+    from . import dictionary
+    lits = [SIG, b"PROXY ", b"PROXY TCP4 ", b"PROXY TCP6 ", b"PROXY UNKNOWN\r\n", b"\r\n\r\n", b"UNKNOWN"]
+    for s_ in dictionary.harvest().get("strs", []):
+        if 3 <= len(s_) <= 24 and s_ not in lits:
+            lits.append(bytes(s_))
+    for L in lits[:24]:
+        n = L[1] * 256 + L[2]
+        body = L[3:]
+        for pre in (b"", enc_tlv(4, b""), enc_tlv(1, b"h2") + enc_tlv(0x20, bytes([1, 0, 0, 0, 0]))):
+            if n >= len(body):
+                pad = n - len(body)
+                yield expr(pre, L, fill(pad, 0x41), enc_tlv(9, b"xy")), len(pre) + 3 + n + 5
+                yield expr(pre, L, fill(pad, 0x41)), len(pre) + 3 + n
+                if pad > 0:
+                    yield expr(pre, L, fill(pad - 1, 0x41)), len(pre) + 3 + n - 1
+            else:
+                yield expr(pre, L, enc_tlv(9, b"xy")), len(pre) + len(L) + 5
 
 
 def header_tlvs(tier, rng, k, n):
@@ -389,6 +417,13 @@ def header_tlvs(tier, rng, k, n):
             continue
         e, info = valid_header(rng, fam=fam, big=rng.chance(1, 300))
         yield ("v2-header-tlvs", e, info)
+    for j, (sec, ln) in enumerate(literal_headed_sections()):
+        if j % n != k:
+            continue
+        fam = j % 4
+        addr = bytes((11 * i + fam) % 256 for i in range(FAM_SIZE[fam]))
+        if len(addr) + ln <= 65535:
+            yield ("v2-header-literal-tlvs", expr(v2_fixed(0x21, fam * 16 + 1, len(addr) + ln), addr, sec), {"fam": fam})
     idx = 0
     for ln in range(0, 5):
         for v in range(5 ** ln):
